@@ -119,6 +119,7 @@ EXTRA = {
     "C05": "every initialiser of a typed list's storage is a converted one; state written by a validating setter has no other writer; generated code never truth-tests a generic field value",
     "C06": "every return of fieldtype() is under the whitelist test and the lookup does not recurse; the whitelist tree walk is decided by facts and reachability; the JSON descriptor branch returns only validated constructions",
     "C07": "the typed matcher hands its whole query to the matcher of a nested record; the interpreted namespace is rebuilt before every evaluation",
+    "C08": "arithmetic / bit operators on a missing field yield the sentinel in both engines (operator methods of the sentinel class, interpreted BinOp guard)",
     "C09": "the call predicate is followed into matcher methods and locals; a getattr name of untraceable provenance needs the dunder refusal",
     "C12": "every element typedlist._pack writes is the packed form of a value of the element type (equal lists pack equally)",
     "C14": "the descriptor handler is registered exactly when descriptors are enabled (facts + reachability); generated constructor code never truth-tests a generic field value",
